@@ -867,10 +867,17 @@ def inline_single_use_locals(fn):
                         # the (only) use in a later statement of the same block; the statements in between must not
                         # rebind anything the defining expression reads
                         reads = {x.id for x in ast.walk(st.value) if isinstance(x, ast.Name)}
+                        # moving the evaluation over other statements is only done for expressions whose value cannot
+                        # depend on what those statements do: a snapshot of mutable state (`n = q.qsize()`) stays where it is
+                        state_reading = any(isinstance(x, (ast.Call, ast.Attribute, ast.Subscript)) for x in ast.walk(st.value))
                         j = i + 1
                         while j < len(blk) and not any(isinstance(x, ast.Name) and x.id == name for x in ast.walk(blk[j])):
                             writes = {x.id for x in ast.walk(blk[j]) if isinstance(x, ast.Name) and isinstance(x.ctx, ast.Store)}
-                            if writes & reads or isinstance(blk[j], (ast.For, ast.While, ast.Try, ast.With, ast.If)) and j - i > 3:
+                            effects = state_reading and any(
+                                isinstance(x, (ast.Call, ast.AugAssign, ast.Delete, ast.Yield, ast.YieldFrom, ast.Await))
+                                or (isinstance(x, (ast.Attribute, ast.Subscript)) and isinstance(x.ctx, ast.Store))
+                                for x in ast.walk(blk[j]))
+                            if effects or writes & reads or isinstance(blk[j], (ast.For, ast.While, ast.Try, ast.With, ast.If)) and j - i > 3:
                                 j = len(blk)
                                 break
                             j += 1
